@@ -314,7 +314,8 @@ def gen_model(rng, size="small", feats=None):
     if F.get("user_sol"):
         # solution-level user rules (C19, third level): balance of the route sizes / a cap on the stops planned altogether
         for _ in range(rng.randint(1, 2)):
-            usol.append(("balance", rng.randint(0, 2)) if (nv > 1 and rng.random() < 0.7) else ("maxplanned", rng.randint(1, max(1, n - 1))))
+            usol.append((("balance", rng.randint(0, 2)) if (nv > 1 and rng.random() < 0.7) else ("maxplanned", rng.randint(1, max(1, n - 1)))) +
+                        (rng.random() < 0.5,))       # True: the exact check reads the constraint's own solution data (data updater)
     return {"usol": usol, "dgroups": dgroups, "groups": groups, "user": user, "stops": stops, "vehicles": vehicles, "units": units, "arcs": arcs, "dur": dur, "dist": dist,
             "nres": nres, "res_mode": res_mode, "opts": opts, "features": {k: bool(v) for k, v in F.items() if k != "fixed_p"}}
 
@@ -573,7 +574,7 @@ def to_lines(m):
     o = m["opts"]
     b = lambda x: "1" if x else "0"  # noqa: E731
     ls = ["user %s %d %s %s%s" % (u[0], u[1], b(u[2]), b(u[3]), " 1" if len(u) > 4 and u[4] else "") for u in m.get("user", [])] + \
-         ["usol %s %d" % (k, v) for k, v in m.get("usol", [])] + ["nres %d" % m["nres"],
+         ["usol %s %d%s" % (u[0], u[1], " data" if len(u) > 2 and u[2] else "") for u in m.get("usol", [])] + ["nres %d" % m["nres"],
           "opt " + " ".join([b(o[k]) for k in ["dis_capacity", "dis_distance", "dis_max_duration", "dis_end_time",
                                                "dis_windows", "dis_max_stops", "dis_max_wait_stop", "dis_max_wait_vehicle",
                                                "dis_attributes", "dis_start_time", "dis_durations"]] +
